@@ -54,7 +54,7 @@ func (p *Pool[T]) Get(size int) (T, int) {
 
 // Put takes x and its size for future reuse.
 func (p *Pool[T]) Put(x T, size int) {
-	if size < p.stepSize {
+	if size < p.stepSize || p.size(size) != size {
 		return
 	}
 
